@@ -313,6 +313,19 @@ func (f *spFam) apply(st M, gb0 map[string]int64) M {
 			x["err"] = err.Error()
 		}
 		x["via"] = via
+	case "mkgauge":
+		// a gauge record with two denominations (a few units of "aaa", which sorts first, next to the ujkl amount), created
+		// through the keeper as genesis / an upgrade would, and funded accordingly
+		amt, days := geti(st, "amt"), geti(st, "days")
+		end := f.ctx.BlockTime().Add(time.Duration(days) * 24 * time.Hour)
+		bB, idB := f.gaugeState()
+		coins := sdk.NewCoins(sdk.NewInt64Coin("aaa", 3), sdk.NewInt64Coin("ujkl", amt))
+		g := k.NewGauge(f.ctx, coins, end)
+		if a, err := stypes.GetGaugeAccount(g); err == nil {
+			f.c.Fund(f.ctx, a, coins)
+		}
+		ev["ok"] = true
+		x["gid"] = f.newGaugeSlot(bB, idB, end)
 	case "postfile":
 		s := f.c.Acct(gets(st, "s"))
 		m := gets(st, "m")
@@ -558,7 +571,9 @@ func (f *spFam) Random(rng *rand.Rand) M {
 			uf := files[rng.Intn(len(files))]
 			return M{"a": "postproof", "s": "p1", "f": []interface{}{f.rootLabel(uf.Merkle), f.c.LabelOf(uf.Owner), uf.Start}}
 		}
-	case r < 71:
+	case r < 70 && !full:
+		return M{"a": "mkgauge", "amt": int64([]int{1000, 50000, 240000}[rng.Intn(3)]), "days": int64([]int{2, 10, 30}[rng.Intn(3)])}
+	case r < 72:
 		rp := [][2]int64{{25, 40}, {0, 10}, {5, 10}, {10, 60}, {40, 60}, {90, 10}, {0, 0}, {25, 5}}[rng.Intn(8)]
 		return M{"a": "setratios", "ref": rp[0], "pol": rp[1]}
 	}
